@@ -250,7 +250,9 @@ Outcome run_threads_case(const Case &c) {
     // itself"): the values must still be destroyed exactly once when their threads exit
     g.keyfree_round = (r % 2) == 1;
     if (g.keyfree_round) pthread_barrier_init(&g.bar, NULL, (unsigned)T + 1);
-    for (long i = 0; i < T; i++) hs.push_back(p_uthread_create(thr_body, (ppointer)i, TRUE, i % 2 ? "rt-thread" : NULL));
+    // joinable is a pboolean, i.e. an int: every third thread is created with a true value other than 1 (flag & mask style), which the
+    // library's own join / unref code treats as joinable like any non-zero value
+    for (long i = 0; i < T; i++) hs.push_back(p_uthread_create(thr_body, (ppointer)i, i % 3 == 2 ? (pboolean)(4 << (i % 5)) : TRUE, i % 2 ? "rt-thread" : NULL));
     if (g.keyfree_round) { pthread_barrier_wait(&g.bar); if (g.key) p_uthread_local_free(g.key); g.key = NULL; pthread_barrier_wait(&g.bar); }
     long expect_destroy = 0;
     for (long i = 0; i < T; i++) {
@@ -451,6 +453,37 @@ Outcome run_semopen_case(const Case &c) {
   o.nontrivial = g.T >= 2; o.fp = vl::fnv1a(to_text(c)); vl::stats().klass("kind_semopen_T" + std::to_string(g.T));
   return o;
 }
+// set racing with a read-modify-write (C04: "under any concurrent mix the final value and the returned old values are those of some
+// sequential order").  Thread B increments the word and then bumps its own published counter; thread A reads that counter (c0), sets the
+// word to a fresh, widely spaced base, reads the word back (g) and reads the counter again (c1).  In every sequential order the set is
+// followed only by increments that B had not yet counted at c0 and, at most, one more than it has counted at c1: base <= g <= base + (c1 - c0) + 1.
+// Exact, no timing: a set whose store is lost or torn shows as g far below base.  int and pointer-width words.
+struct SetInc { volatile pint w = 0; volatile psize pw = 0; std::atomic<long> counted{0}; std::atomic<int> stop{0}; bool ptr = false; string bad; };
+SetInc *SI = nullptr;
+void *setinc_b(void *) {
+  SetInc &g = *SI;
+  while (!g.stop.load(std::memory_order_relaxed)) { if (g.ptr) p_atomic_pointer_add((void *)&g.pw, 1); else p_atomic_int_inc(&g.w); g.counted.fetch_add(1); }
+  return NULL;
+}
+Outcome run_setinc_case(const Case &c) {
+  Outcome o; SetInc g; SI = &g; g.ptr = c.width == 'p';
+  pthread_t b; pthread_create(&b, NULL, setinc_b, NULL);
+  long rounds = std::max(2000, c.N * 20); long lost = 0;
+  for (long i = 1; i <= rounds && g.bad.empty(); i++) {
+    long c0 = g.counted.load();
+    long base = g.ptr ? i * 100000000L : (i % 20) * 100000000L + 1000;   // int: stays below INT_MAX, successive bases far apart
+    if (g.ptr) p_atomic_pointer_set((void *)&g.pw, (ppointer)(psize)base); else p_atomic_int_set(&g.w, (pint)base);
+    long got = g.ptr ? (long)(psize)p_atomic_pointer_get((void *)&g.pw) : (long)p_atomic_int_get(&g.w);
+    long c1 = g.counted.load();
+    if (got < base || got > base + (c1 - c0) + 1) { lost++; g.bad = string(g.ptr ? "p_atomic_pointer_set" : "p_atomic_int_set") + "(" + std::to_string(base) + ") returned, and the word read right afterwards holds " + std::to_string(got) + " while another thread was incrementing it (at most " + std::to_string(c1 - c0 + 1) + " increments can lie between): no sequential order of the set and the increments gives that value - the store was lost"; }
+    if ((i & 1023) == 0) sched_yield();
+  }
+  g.stop.store(1); pthread_join(b, NULL);
+  if (!g.bad.empty()) { o.klass = "set-vs-rmw"; o.verdict = g.bad; }
+  SI = nullptr;
+  o.nontrivial = g.counted.load() > 1000; o.fp = vl::fnv1a(to_text(c)); vl::stats().klass(string("kind_setinc_") + (g.ptr ? "ptr" : "int"));
+  return o;
+}
 // long hold: one thread keeps the lock for seconds while another sits in the blocking lock call the whole time (hundreds of millions of
 // failed acquisition attempts for a spinlock): the waiter's call may return only after the release.  One-sided: a slow machine makes the
 // waiter try fewer times, never makes a correct lock fail.
@@ -585,6 +618,7 @@ Outcome run_case(const Case &c) {
   if (c.kind == "rwwait") return run_rwwait_case(c);
   if (c.kind == "sigburst") return run_sigburst_case(c);
   if (c.kind == "semopen") return run_semopen_case(c);
+  if (c.kind == "setinc") return run_setinc_case(c);
   Outcome o;
   Shared g; G = &g;
   g.c = c;
